@@ -29,7 +29,8 @@ def gen(ctx, count):
                     if spec["actions"][a2] == spec["actions"][a]:
                         spec["nxt"][s][a2] = list(spec["nxt"][s][a])
         kind = rng.choice(["ok", "ok", "ok", "big_dev", "small_dev"])
-        tol = F(1, 2 ** 13)
+        tol = rng.choice([F(1, 2 ** 13), F(1, 2 ** 13), F(0), F(0), F(1, 2), F(1, 2 ** 30)])
+        tol_as_int = tol == 0 and rng.random() < 0.5
         if kind != "ok":
             s, a = rng.randrange(nS), rng.randrange(spec["nA"])
             delta = F(1, 8) if kind == "big_dev" else F(1, 2 ** 20)
@@ -40,7 +41,7 @@ def gen(ctx, count):
                 sign = 1
             for a2 in rows:
                 spec["prb"][s][a2][0] = str(F(spec["prb"][s][a2][0]) + sign * delta)
-        out.append({"seed": sub, "spec": spec, "tol": str(tol), "kind": kind})
+        out.append({"seed": sub, "spec": spec, "tol": str(tol), "tol_as_int": tol_as_int, "kind": kind})
     return out
 
 
@@ -119,7 +120,7 @@ def coq_item(c, r, k):
 
 def run(ctx, build):
     cs = gen(ctx, 60 if ctx.tier == "quick" else 1200)
-    res = core.run_workers(ctx, [{"kind": "build_matrices", "problem": c["spec"], "tol": solverun.fl(c["tol"])} for c in cs])
+    res = core.run_workers(ctx, [{"kind": "build_matrices", "problem": c["spec"], "tol": (0 if c.get("tol_as_int") else solverun.fl(c["tol"]))} for c in cs])
     corr, viols, items, meta = [], [], [], []
     kinds = {}
     for c, r in zip(cs, res):
@@ -152,7 +153,7 @@ def run(ctx, build):
 
 def search(ctx, build, res, time_budget=60):
     cs = gen(ctx, 40)
-    rr = core.run_workers(ctx, [{"kind": "build_matrices", "problem": c["spec"], "tol": solverun.fl(c["tol"])} for c in cs])
+    rr = core.run_workers(ctx, [{"kind": "build_matrices", "problem": c["spec"], "tol": (0 if c.get("tol_as_int") else solverun.fl(c["tol"]))} for c in cs])
     for c, r in zip(cs, rr):
         why = oracle(c, r)
         if why:
@@ -165,6 +166,6 @@ def replay(ctx, build, data):
     if not inp:
         return {"fails": False, "note": "no concrete input"}
     c = inp["case"]
-    r = core.run_workers(ctx, [{"kind": "build_matrices", "problem": c["spec"], "tol": solverun.fl(c["tol"])}])[0]
+    r = core.run_workers(ctx, [{"kind": "build_matrices", "problem": c["spec"], "tol": (0 if c.get("tol_as_int") else solverun.fl(c["tol"]))}])[0]
     why = oracle(c, r)
     return {"fails": bool(why), "why": why}
